@@ -47,7 +47,7 @@ TEopm  == IsEvent("Eopm") /\ cfg.eopm = "yes" /\ T.n = LenMin /\ Eopm /\ UNCHANG
 \* the whole stream as aggregates (agg mode)
 TAgg == /\ IsEvent("Agg") /\ cfg.mode = "agg" /\ agg = <<>> /\ ~ended
         /\ LET a == T  copies == a.match + a.rep  avail0 == Min(cfg.presetlen, dictSize) IN
-           /\ (copies + a.srep > 0) =>
+           /\ (copies > 0) =>            \* (short reps use rep0, a distance already counted or the initial 1)
                 /\ a.maxdist >= 1 /\ a.maxdist <= dictSize
                 /\ a.maxdist <= avail0 + a.outlen - 1
                 /\ a.minslack >= 0
